@@ -49,6 +49,8 @@ type viewSpec struct {
 	Var string   `json:"var,omitempty"` // "" | "string" | "bytes": trailing variable-size clustering column
 	// MaxLen constraint of the trailing column (0 = the builder's default, appdef.DefaultFieldMaxLength)
 	VarMax int `json:"varmax,omitempty"`
+	// MinLen constraint of the trailing column (0 = none)
+	VarMin int `json:"varmin,omitempty"`
 }
 
 func (v viewSpec) coq(id uint64) string {
@@ -59,14 +61,17 @@ func (v viewSpec) coq(id uint64) string {
 		}
 		return kit.List(items)
 	}
-	return fmt.Sprintf("mkSchema %d %s %s %s", id, ks(v.PK), ks(v.CC), kit.Bool(v.Var != ""))
+	return fmt.Sprintf("mkSchema %d %s %s %s %d", id, ks(v.PK), ks(v.CC), kit.Bool(v.Var != ""), v.VarMin)
 }
 
-func maxLen(n int) []appdef.IConstraint {
-	if n <= 0 {
-		return nil
+func lenConstraints(v viewSpec) (cc []appdef.IConstraint) {
+	if v.VarMax > 0 {
+		cc = append(cc, constraints.MaxLen(uint16(v.VarMax)))
 	}
-	return []appdef.IConstraint{constraints.MaxLen(uint16(n))}
+	if v.VarMin > 0 {
+		cc = append(cc, constraints.MinLen(uint16(v.VarMin)))
+	}
+	return cc
 }
 
 func qn(name string) appdef.QName { return appdef.NewQName("verif", name) }
@@ -104,9 +109,9 @@ func buildAppDef(views []viewSpec) appdef.IAppDefBuilder {
 		}
 		switch v.Var {
 		case "string":
-			vb.Key().ClustCols().AddField("s", appdef.DataKind_string, maxLen(v.VarMax)...)
+			vb.Key().ClustCols().AddField("s", appdef.DataKind_string, lenConstraints(v)...)
 		case "bytes":
-			vb.Key().ClustCols().AddField("s", appdef.DataKind_bytes, maxLen(v.VarMax)...)
+			vb.Key().ClustCols().AddField("s", appdef.DataKind_bytes, lenConstraints(v)...)
 		}
 		vb.Value().AddField("n", appdef.DataKind_int64, true)
 	}
